@@ -612,4 +612,13 @@ def vSerialized (s : Vars) : List (Cps × Cps) :=
 /-- what the API reports: `[(k, getVariableValue(k)) for k in keys()]` -/
 def vReported (s : Vars) : List (Cps × Cps) := (vKeys s).map (fun k => (k, vGet s k))
 
+/-- a literal spelling of a normalised name: every backslash doubled (`c10_gen.requote` of the harness) -/
+def requote : Cps → Cps
+  | [] => []
+  | c :: t => if c == 92 then 92 :: 92 :: requote t else c :: requote t
+
+/-- what the API reports when every listed key is looked up by a literal spelling of it:
+`[(k, getVariableValue(requote(k))) for k in keys()]` -/
+def vReportedQ (s : Vars) : List (Cps × Cps) := (vKeys s).map (fun k => (k, vGet s (requote k)))
+
 end CssVerif.Decl
